@@ -406,6 +406,8 @@ namespace xv
         else if (kind == 1)
             for (int n = 0; n < xv_type_size[elem] * 8; ++n)
                 p.push_back(n);
+        else if (kind == 3)
+            p = { 0, 1, 2, 3, 4, 5, 7, 8, 13, 31, 32, 64, 100, 1000, -1, -2, -3, -5, -8, -31, -1000 };
         else if (kind == 2)
             p = { 0, 1, -1, 2, 3, 7, 127, -128, 255, 1000, 65535, -32768, 2147483647L, -2147483648L, 4294967295L, 0x123456789ABCDEFL };
         return p;
@@ -495,6 +497,7 @@ namespace xv
                     oi->spec = spec;
                     oi->name = name;
                     oi->prop = prop;
+                    oi->skip_nan_inputs = prop == "C17";
                     oi->param = p;
                     oi->impls = kv.second;
                     g->ops.push_back(std::move(oi));
